@@ -326,3 +326,50 @@ func CoqVote(v int64) string {
 	}
 	return fmt.Sprintf("(Some %d)", v)
 }
+
+// ---------------------------------------------------------------- parent: keeper cases (C25/KeeperRun.v)
+
+func coqKRec(k KRec) string {
+	cp := "None"
+	if k[5] != 0 {
+		cp = fmt.Sprintf("(Some (mkCP %d %d %s))", k[5], k[6], CoqBool(k[7] == 1))
+	}
+	return fmt.Sprintf("mkU %d %d %d %d %s %s %d", k[0], k[1], k[2], k[3], CoqVote(k[4]), cp, k[8])
+}
+
+func coqKRecs(ks []KRec) string {
+	var xs []string
+	for _, k := range ks {
+		xs = append(xs, coqKRec(k))
+	}
+	return CoqList(xs)
+}
+
+func coqKFlag(f KFlag) string {
+	var qs, rs []string
+	for i, prs := range f.Find {
+		var ps []string
+		for _, p := range prs {
+			ps = append(ps, fmt.Sprintf("(%d, %d)", p[0], p[1]))
+		}
+		qs = append(qs, fmt.Sprintf("(%s, %d)", CoqList(ps), f.Imm[i]))
+	}
+	for _, v := range f.Res {
+		if v < 0 {
+			rs = append(rs, "None")
+		} else {
+			rs = append(rs, fmt.Sprintf("Some %d", v))
+		}
+	}
+	return fmt.Sprintf("(%s, %s)", CoqList(qs), CoqList(rs))
+}
+
+// CoqKeeperCase renders one keeper observation: the model expression and the observed value.
+func CoqKeeperCase(k KObs) (string, string) {
+	var ids []string
+	for _, id := range k.Ids {
+		ids = append(ids, fmt.Sprint(id))
+	}
+	model := fmt.Sprintf("run_keeper %d %s %s %s %s", k.H, coqKRecs(k.Std), coqKRecs(k.Ctr), coqKRecs(k.Unc), CoqList(ids))
+	return model, fmt.Sprintf("(%s, %s)", coqKFlag(k.True), coqKFlag(k.False))
+}
